@@ -50,6 +50,9 @@ var c11Scens = []scen{
 	{"url||url", []string{"url-totp"}, [][]string{{"url-totp"}, {"url-hotp"}}, [2]int{1, 2}, false},
 	{"decode||decode||random", nil, [][]string{{"decode-secret-0", "decode-secret-bad"}, {"decode-secret-1", "decode-secret-2"}, {"random-secret-0"}}, [2]int{1, 2}, false},
 	{"helpers||helpers||random", nil, [][]string{{"helpers-a"}, {"helpers-b"}, {"random-secret-2", "random-secret-0"}}, [2]int{1, 2}, false},
+	{"ocra 1||2", []string{"ocra-short"}, [][]string{{"ocra-short"}, {"ocra-long", "ocra-validate-hit"}}, [2]int{1, 2}, false},
+	{"ocra 1||2 cold", nil, [][]string{{"ocra-long"}, {"ocra-short", "ocra-long-2"}}, [2]int{1, 2}, false},
+	{"hotp 1||2", []string{"hotp-c1"}, [][]string{{"hotp-10digits"}, {"hotp-c2^40-sha256-8", "totp-gen"}}, [2]int{1, 2}, false},
 	{"3xhotp retained", []string{"hotp-c1"}, [][]string{{"hotp-c1", "hotp-1digit"}, {"hotp-c2^40-sha256-8"}, {"hotp-10digits"}}, [2]int{1, 2}, false},
 	{"hotp||hotp||gc unbounded-at-pool-ops", []string{"hotp-c1"}, [][]string{{"hotp-c1", "totp-gen"}, {"hotp-c2^40-sha256-8", "hotp-1digit"}, {"gc"}}, [2]int{-1, -1}, true},
 	{"ocra||ocra||adversary unbounded-at-pool-ops", []string{"ocra-short"}, [][]string{{"ocra-short", "ocra-long"}, {"ocra-validate-hit"}, {"adversary-6287"}}, [2]int{-1, -1}, true},
